@@ -22,7 +22,7 @@ def main():
             r = subprocess.run(["/venv/bin/python", "-m", "pytest", "-q", "-x", "-p", "no:cacheprovider", "-n", "8", "--no-cov", "-o", "addopts=", "pymablock"], cwd=d, capture_output=True, text=True)
             print("repo tests on mutant:", r.stdout.strip().splitlines()[-1])
         for c in checks:
-            env = dict(os.environ, VERIF_REPO=d)
+            env = dict(os.environ, VERIF_REPO=d, VERIF_EVIDENCE_DIR=os.path.join(d, "ev"), VERIF_REPLAY_DIR=os.path.join(d, "rp"))
             r = subprocess.run(["/verif/check", c, tier], env=env, capture_output=True, text=True)
             lines = [l for l in r.stdout.splitlines() if l.startswith(("[", "VIOLATION", "INCONCLUSIVE", "KNOWN", "  violation"))]
             print(f"== {c}: exit {r.returncode}")
